@@ -118,7 +118,15 @@ func newRand(seed int64) *rand.Rand { return rand.New(rand.NewSource(seed)) }
 
 func newV2T() *v2T {
 	seed := vuSeed()*1000003 + int64(vuEnvInt("VERIF_PROC", 0))
-	return &v2T{out: vuOpenOut("VERIF_OUT"), rng: rand.New(rand.NewSource(seed)), tier: os.Getenv("VERIF_TIER")}
+	t := &v2T{out: vuOpenOut("VERIF_OUT"), rng: rand.New(rand.NewSource(seed)), tier: os.Getenv("VERIF_TIER")}
+	seen := map[string]bool{}
+	v2OnTokErr = func(err error, data []byte) {
+		if h := v2Hash(data); !seen[h] {
+			seen[h] = true
+			t.emit(map[string]interface{}{"ev": "panic", "api": "tokenizeStream", "panic": "error from an in-memory reader: " + err.Error(), "len": len(data), "hash": h, "input_b64": vuB64(data[:vuMin(len(data), 512)])})
+		}
+	}
+	return t
 }
 
 func (t *v2T) thorough() bool                { return t.tier == "thorough" }
@@ -201,10 +209,18 @@ func v2Ranks(vals []float64) map[float64]int {
 func (c *v2C) tokens(data []byte) *indexedDocument {
 	doc, err := tokenizeStream(bytes.NewReader(data), true, c.c.dict, false)
 	if err != nil {
+		// the tokenizer "will never return an error of its own": an in-memory reader does not fail.  Reported once, as a call
+		// that did not complete (C10); the white-box view of this input is empty.
+		if v2OnTokErr != nil {
+			v2OnTokErr(err, data)
+			return &indexedDocument{}
+		}
 		panic(err)
 	}
 	return doc
 }
+
+var v2OnTokErr func(err error, data []byte)
 
 type v2MatchOpts struct {
 	memo   string // memo key ("" = none)
